@@ -180,6 +180,112 @@ Proof.
   intros H. apply Lemmas.Bip32Path.mapM_err in H. destruct H as (x & _ & Hx). eapply make_elem_err; eauto.
 Qed.
 
+(* ------------------------------------------------------------------ completeness: what the parser accepts *)
+
+(* re-association of [fields_decomp]'s "token, then slashes" form into "slashes, then token" form *)
+Fixpoint shift (k : nat) (toks : list (list N * nat)) : list (nat * list N) * nat :=
+  match toks with
+  | [] => ([], S k)
+  | (t, g) :: r => match r with
+                   | [] => ([(k, t)], g)
+                   | _ => let '(l, tr) := shift g r in ((k, t) :: l, tr)
+                   end
+  end.
+
+Lemma shift_spec toks : forall k,
+  repeat sl (S k) ++ joined sl toks = flat_map tok (fst (shift k toks)) ++ repeat sl (snd (shift k toks)).
+Proof.
+  induction toks as [|[t g] r IH]; intros k.
+  - cbn [joined shift fst snd flat_map app]. rewrite app_nil_r. reflexivity.
+  - destruct r as [|p r'].
+    + cbn [joined shift fst snd flat_map]. unfold tok. cbn [fst snd]. rewrite app_nil_r. apply app_assoc.
+    + rewrite joined_cons. unfold jtail. specialize (IH g).
+      change (shift k ((t, g) :: p :: r')) with (let '(l, tr) := shift g (p :: r') in ((k, t) :: l, tr)).
+      destruct (shift g (p :: r')) as [l tr] eqn:E. cbn [fst snd] in *.
+      cbn [flat_map]. unfold tok at 1. cbn [fst snd]. rewrite <- !app_assoc. do 2 f_equal. exact IH.
+Qed.
+
+Lemma shift_bodies toks k : Forall (tok_ok sl) (map fst toks) -> Forall body_ok (map snd (fst (shift k toks))).
+Proof.
+  revert k. induction toks as [|[t g] r IH]; intros k H; [constructor|].
+  inversion H; subst. destruct r as [|p r'].
+  - cbn. constructor; [assumption|constructor].
+  - change (shift k ((t, g) :: p :: r')) with (let '(l, tr) := shift g (p :: r') in ((k, t) :: l, tr)).
+    specialize (IH g H3). destruct (shift g (p :: r')) as [l tr]. cbn [fst snd map] in *.
+    constructor; assumption.
+Qed.
+
+(* every string that is empty or starts with a slash is a sequence of tokens plus trailing slashes *)
+Lemma slash_string_decomp s : (s = [] \/ exists r, s = sl :: r) ->
+  exists toks t, s = flat_map tok toks ++ repeat sl t /\ Forall body_ok (map snd toks).
+Proof.
+  intros Hs. destruct (fields_decomp sl s) as (k0 & jt & E & _ & Hok).
+  destruct k0 as [|k0].
+  - destruct jt as [|[t g] r].
+    + exists [], 0%nat. split; [exact E|constructor].
+    + exfalso. cbn [repeat app] in E. rewrite joined_cons in E.
+      assert (Ht : tok_ok sl t) by (inversion Hok; assumption). destruct Ht as [Hne Hns].
+      destruct t as [|x t']; [congruence|].
+      destruct Hs as [Hs|(r0 & Hs)]; rewrite Hs in E; [discriminate|].
+      inversion E as [[Ex Et]]. apply Hns. left. symmetry. exact Ex.
+  - exists (fst (shift k0 jt)), (snd (shift k0 jt)). split; [rewrite E; apply shift_spec|apply shift_bodies, Hok].
+Qed.
+
+Lemma rfind_tok k body : ~ In sl body -> rfind sl (repeat sl (S k) ++ body) = Some k.
+Proof.
+  intros H. induction k as [|k IH].
+  - cbn [repeat app rfind]. rewrite (rfind_none sl body H), N.eqb_refl. reflexivity.
+  - change (repeat sl (S (S k)) ++ body) with (sl :: (repeat sl (S k) ++ body)). cbn [rfind]. rewrite IH. reflexivity.
+Qed.
+
+Lemma remove_char_repeat c k : remove_char c (repeat c k) = [].
+Proof. induction k; [reflexivity|]. simpl. rewrite N.eqb_refl. simpl. exact IHk. Qed.
+
+Lemma make_elem_tok k body el : body_ok body -> make_elem (tok (k, body)) = Ok el ->
+  elem_to_str el = tok (k, body) /\ elem_ok el.
+Proof.
+  intros [Hne Hns] H. pose proof (make_elem_ok _ _ H) as Hok. split; [|exact Hok]. clear Hok.
+  unfold make_elem, elem_valid, elem_to_str, tok in *. cbn [fst snd] in *.
+  destruct sub_prefixes_ok as [Es Eh]. rewrite Es, Eh in *. rewrite sub_rfind_bound_ok in H.
+  rewrite (rfind_tok k body Hns) in H.
+  rewrite remove_char_app, remove_char_repeat, remove_char_none in H by exact Hns. cbn [app] in H.
+  destruct body as [|x b]; [congruence|].
+  assert (Hx : (47 =? x) = false).
+  { apply N.eqb_neq. intros <-. apply Hns. left. rewrite sl_eq. reflexivity. }
+  rewrite sl_eq in *. unfold slash in *.
+  destruct k as [|[|k]].
+  - cbn [repeat app starts_with] in H. rewrite Hx in H. simpl in H. inversion H. reflexivity.
+  - cbn [repeat app starts_with] in H. simpl in H. inversion H. reflexivity.
+  - exfalso. destruct (Nat.ltb_spec (S (S k)) 2) as [L|_]; [lia|]. rewrite andb_false_r in H. discriminate.
+Qed.
+
+Theorem parse_complete s p : parse s = Ok p ->
+  exists t, s = to_str p ++ repeat slash t /\ Forall elem_ok p.
+Proof.
+  unfold parse. rewrite sub_body_slash_ok.
+  destruct (nonempty s && negb (starts_with [47] s)) eqn:G; [discriminate|]. intros H.
+  assert (Hs : s = [] \/ exists r, s = sl :: r).
+  { destruct s as [|x r]; [left; reflexivity|right]. cbn [nonempty starts_with andb] in G.
+    destruct (N.eqb_spec 47 x) as [<-|]; [|discriminate]. exists r. rewrite sl_eq. reflexivity. }
+  destruct (slash_string_decomp s Hs) as (toks & t & E & Hb).
+  rewrite E, re_findall_toks in H by exact Hb. apply Lemmas.Bip32Path.mapM_ok in H.
+  exists t. rewrite <- sl_eq, E.
+  assert (G2 : to_str p = flat_map tok toks /\ Forall elem_ok p).
+  { clear E G Hs. revert p H. induction toks as [|[k body] r IH]; intros p H; inversion H; subst.
+    - split; [reflexivity|constructor].
+    - cbn [map] in Hb. inversion Hb; subst.
+      destruct (make_elem_tok k body y H3 H2) as [E1 E2].
+      destruct (IH H5 l' H4) as [E3 E4]. split; [|constructor; assumption].
+      unfold to_str in *. cbn [flat_map]. rewrite E1, E3. reflexivity. }
+  destruct G2 as [-> F]. auto.
+Qed.
+
+Theorem parse_accepts_iff s p :
+  parse s = Ok p <-> exists t, s = to_str p ++ repeat slash t /\ Forall elem_ok p.
+Proof.
+  split; [apply parse_complete|]. intros (t & -> & F). apply parse_to_str_slashes, F.
+Qed.
+
 (* ------------------------------------------------------------------ chain codes: integers *)
 
 Lemma lt_of_size_le v k : N.size v <= k -> v < 2 ^ k.
